@@ -28,7 +28,7 @@ def lane_mask(sims, byte):
     return (1 << n) - 1
 
 
-def symbolize(sim, tag='i', garbage=True):
+def symbolize(sim, tag='i', garbage=True, gtag=None):
     """Replace sim.c and sim.s by symbolic object arrays.
     s[0] (assigned values): fresh variable per (slot, plane, byte) for *every* slot.
     s[1]: the real initial constants.  c: arbitrary garbage (fresh variables) except the constant-zero slot,
@@ -47,7 +47,7 @@ def symbolize(sim, tag='i', garbage=True):
     zloc = int(sim.c_locs[sim.zero_idx])
     for idx in np.ndindex(sim.c.shape):
         if garbage and idx[0] != zloc:
-            c[idx] = z3.BitVec(f'{tag}g{idx[0]}_{idx[1]}_{idx[2]}', W)
+            c[idx] = z3.BitVec(f'{gtag or tag}g{idx[0]}_{idx[1]}_{idx[2]}', W)
         else:
             c[idx] = z3.BitVecVal(int(sim.c[idx]), W)
     sim.s, sim.c = s, c
